@@ -102,6 +102,7 @@ def c151(ctx):
             elif tr == "buffertk::Unpackable" and f.name == "unpack":
                 by_type[strip_generics(f.impl_self)]["unpack"] = f
     n_types = 0
+    skipped = []
     for ty in sorted(by_type):
         fs = by_type[ty]
         if "pack_sz" not in fs or "unpack" not in fs:
@@ -116,6 +117,12 @@ def c151(ctx):
         f0 = fs["pack_sz"]
         adt = ctx.prog.adts.get(ty, {})
         is_enum = adt.get("kind") == "Enum"
+        if is_enum and any(len(v["fields"]) > 1 or any(not n_.isdigit() for n_, _t, _p in v["fields"]) for v in adt.get("variants", [])):
+            # struct-like variants are packed as nested anonymous messages: their inner field numbers live in a
+            # different scope from the variant tags; the flat table reading does not apply (recorded, not decided)
+            skipped.append(ty)
+            n_types -= 1
+            continue
         base = sorted(pt["pack_sz"], key=lambda x: (x[0] is None, x[0]))
         for name in ("pack", "stream"):
             if name in pt:
@@ -151,6 +158,9 @@ def c151(ctx):
             ctx.check(R, g, "skips-unknown", skip, "%s::unpack skips unknown (number, wire type) pairs and continues" % ty,
                       "%s::unpack does not skip unknown fields" % ty)
     ctx.floor(R, "derived message types", n_types, 8)
+    if skipped:
+        ctx.notes.append("C15.1: enums with struct-like variants not table-checked: %s" % skipped)
+        ctx.ok(R, "prototk_derive", "not table-checked (nested anonymous messages in struct-like enum variants): %s" % skipped)
 
 
 DECODE_EXC = {
